@@ -188,9 +188,30 @@ package types
 //@ ensures exact: result == strsKey(ss)
 
 //@ func ValidateRequestContextUpdating
-//@ props C09
+//@ props C09 C10 C18
+//@ ensures err == NoErr ==> timeout >= 0 && repeatedTotal >= -1 && len(providers) <= 10 &&
+//@      (timeout != 0 && repeatedFrequency != 0 ==> repeatedFrequency >= timeout)
+
+//@ func ValidateProvidersCanEmpty
+//@ props C18 C09
+//@ ensures at_most_ten: err == NoErr ==> len(providers) <= 10
+
+//@ func ValidateProvidersNoEmpty
+//@ props C18 C09
+//@ ensures between_one_and_ten: err == NoErr ==> 0 < len(providers) && len(providers) <= 10
+
+// pure helpers whose result is not used by any property: nothing is assumed about them except that they touch no module state
+//@ func checkDuplicateProviders
 //@ trusted
-//@ ensures err == NoErr ==> timeout >= 0 && repeatedTotal >= -1
+
+//@ func ValidateServiceName
+//@ trusted
+
+//@ func ValidateInput
+//@ trusted
+
+//@ func ValidateServiceFeeCap
+//@ trusted
 
 // ---------------------------------------------------------------- identifiers (C18); byte-level contracts are in the lemmas of layer K
 //@ func GenerateRequestID
@@ -204,9 +225,8 @@ package types
 //@ ensures [C18] exact_layout: result == mkCtxID(txHash, msgIndex)
 
 //@ func ValidateRequest
-//@ props C10 C09
-//@ trusted
-//@ ensures err == NoErr ==> timeout > 0 && len(providers) > 0 && (repeated ==> (repeatedFrequency == 0 || repeatedFrequency >= timeout) && (repeatedTotal == -1 || repeatedTotal >= 1))
+//@ props C10 C09 C18
+//@ ensures err == NoErr ==> timeout > 0 && len(providers) > 0 && len(providers) <= 10 && (repeated ==> (repeatedFrequency == 0 || repeatedFrequency >= timeout) && (repeatedTotal == -1 || repeatedTotal >= 1))
 
 // ---------------------------------------------------------------- genesis validation (C19)
 //@ func ValidateGenesis
